@@ -508,6 +508,18 @@ func (fx *Fx) pureReadLoc(st *State, l *Loc) Val {
 // guardCheck: access discipline for fields declared `guarded_by <lock field>`: the lock of the same object is
 // held (read: any mode, write: write mode) unless the object was allocated by this activation (not yet published).
 func (fx *Fx) guardCheck(st *State, l *Loc, write bool) {
+	if cls := fx.w.atomicClass(l.key); cls != "" && !fx.inAtomic {
+		// plain access to a field declared atomic (allowed only on an object this activation allocated)
+		fresh := "false"
+		if fx.entry != nil {
+			fresh = fmt.Sprintf("(> %s %s)", l.ref, fx.entry.alloc)
+		}
+		what := "read"
+		if write {
+			what = "write"
+		}
+		fx.c.oblige(st, "atomic", "plain-"+what+"("+strings.TrimPrefix(l.key, "F:")+")", fresh, "field declared atomic is accessed through sync/atomic only", fx.w.pos(fx.curPos))
+	}
 	lk := fx.w.guardOf(l.key)
 	if lk == "" || fx.noGuard {
 		return
